@@ -5,8 +5,8 @@ from gcv import typestate, cfg
 from gcv.model import norm
 
 
-def run(chk, tier):
-    prog, T = typestate.engine("default")
+def run_config(chk, tier, cfgname):
+    prog, T = typestate.engine(cfgname)
     chk.explain("C10: (S4) on the per-object typestate automaton extracted from the MIR of the collector, "
                 "`mark_gc_untraced` may only fire for an object holding an outstanding trace credit and "
                 "`mark_gc_traced` only for one that holds none (no underflow of traced_gcs for any reachable "
@@ -31,3 +31,17 @@ def run(chk, tier):
     # debt is clamped / zero for an empty arena / monotone in its inputs; helper and adjust_debt shapes
     rules_debt.check_formula(chk, prog)
     rules_debt.check_helpers(chk, prog)
+
+
+def run(chk, tier):
+    cfgs = typestate.configs(tier)
+    chk.extra["feature_configs"] = cfgs
+    for c in cfgs:
+        chk.cfg = c
+        n_expl = len(chk.explanation)
+        nd = len(chk.not_decided)
+        run_config(chk, tier, c)
+        if c != cfgs[0]:
+            del chk.explanation[n_expl:]
+            del chk.not_decided[nd:]
+    chk.cfg = None
